@@ -11,6 +11,11 @@ CLAIMED = {
    ref="DESIGN.md §5 C17"),
 }
 
+CLAIMED["C14"] = dict(
+   text="Symbolic execution of the real readStreamingPacket / writeStreamingPacket / tcpPacketConn.startReading / readFromContext against a fake net.Conn whose byte stream (header included) is symbolic and whose Read chunking and failure point are explored exhaustively within the bounds; z3 decides length/offset/content assertions for all stream contents. Length arithmetic at the 16-bit boundary is case-split over listed lengths.",
+   note="Bounds: streams <= 7 bytes quick / <= 9 thorough, buffers <= 5 / <= 7, <= 2 packets in round trips; lengths {255..131072} listed. Trusted: encoder (validated natively per run), z3, net.Conn Read contract (1..len(p) bytes or error). Outside: activeTCPConn goroutines, OS TCP, concurrency.",
+   ref="DESIGN.md §5 C14")
+
 NOT_APPLICABLE = {
  "C01": "needs two live agents, a symbolic network scheduler and a fairness (liveness) argument; a sequential encoder of single functions cannot express it (its safety half is covered by the C02/C03 lemmas)",
  "C08": "termination / unblocking of blocked goroutines and a goroutine census: no scheduler or channel model in a sequential SSA encoder",
@@ -28,7 +33,6 @@ NOT_BUILT = {
  "C09": "check not built yet in this round (planned in DESIGN.md §5); not claimed",
  "C12": "check not built yet in this round (planned in DESIGN.md §5); not claimed",
  "C13": "check not built yet in this round (planned in DESIGN.md §5); not claimed",
- "C14": "check not built yet in this round (planned in DESIGN.md §5); not claimed",
  "C15": "check not built yet in this round (planned in DESIGN.md §5); not claimed",
  "C16": "check not built yet in this round (planned in DESIGN.md §5); not claimed",
  "C18": "check not built yet in this round (planned in DESIGN.md §5); not claimed",
